@@ -30,6 +30,24 @@ type c09Bin struct {
 	Class string  `json:"class"`
 	Chunk int     `json:"chunk,omitempty"` // the counting reader hands out at most this many bytes per Read (0 = as many as asked)
 	Claim uint64  `json:"claim,omitempty"` // the length / count the crafted varint claims (0 = not a crafted claim)
+	// Honest: Bytes is empty and the input is built here: a well-formed
+	// transaction / input / output whose script really is this many bytes long
+	Honest int `json:"honest_script_bytes,omitempty"`
+}
+
+// c09HonestBytes builds the honest large input for an entry point kind.
+func c09HonestBytes(kind string, n int) []byte {
+	script := make([]byte, n)
+	for i := range script {
+		script[i] = byte(i*7 + i>>8)
+	}
+	t := &refcodec.Tx{Version: 1, Ins: []refcodec.In{{PrevHash: make([]byte, 32), Script: []byte{0x51}, Seq: 0xffffffff}}, Outs: []refcodec.Out{{Sats: 1, Script: script}}}
+	if kind == "in" || kind == "in-ext" {
+		t.Ins[0].Script = script
+		t.Outs[0].Script = []byte{0x51}
+	}
+	cb := &c09Base{t: t, b: refcodec.Encode(t, false, nil)}
+	return cb.forKind(kind)
 }
 
 // c09Doc is one JSON document for one JSON decoder entry point.
@@ -261,6 +279,10 @@ func c09JudgeBin(c *mon.Ctx, in *c09Bin) {
 	}
 	c.Count("bin:" + e.name + ":" + cls)
 	b := []byte(in.Bytes)
+	if in.Honest > 0 && len(b) == 0 {
+		b = c09HonestBytes(e.kind, in.Honest)
+		c.Max("max:honest-script-bytes", float64(in.Honest))
+	}
 	if in.Claim > 0 {
 		c.Max("max:claimed-length", float64(in.Claim))
 	}
@@ -822,6 +844,22 @@ func init() {
 		kinds := []string{"tx", "list", "in", "in-ext", "out"}
 
 		// ------------------------------------------------------------ fatal claims (first: a dying child loses little)
+		c.Phase("honest-large-scripts") // well-formed inputs whose script really is several MiB long: allocation stays proportional to the input
+		{
+			sizes := []int{1 << 20, 4 << 20, 8 << 20}
+			if c.Thorough {
+				sizes = append(sizes, 3<<20+12345, 16<<20, 32<<20)
+			}
+			n := uint64(0)
+			for _, sz := range sizes {
+				for i := range c09BinEntries {
+					n++
+					if c.Case(n) {
+						jb(c, &c09Bin{Entry: c09BinEntries[i].name, Class: "honest-large", Chunk: chunks[int(n)%len(chunks)], Honest: sz})
+					}
+				}
+			}
+		}
 		c.Phase("claim-2^40")
 		nfatal := 8
 		if c.Thorough {
